@@ -214,7 +214,7 @@ Proof.
 Qed.
 
 Lemma direct_open_ignores_pre c pre :
-  direct_open (mkdcfg (dc_target c) (dc_opts c) (dc_v1_given c) (dc_nilroots c) (dc_roots c) pre) = direct_open c.
+  direct_open (mkdcfg (dc_target c) (dc_opts c) (dc_v1_given c) (dc_nilroots c) (dc_roots c) pre (dc_faults c)) = direct_open c.
 Proof. reflexivity. Qed.
 
 (* the inner writer exists only after the path was opened with create+truncate (path target) *)
@@ -253,9 +253,9 @@ Definition exd_k1 : bytes := cid_enc (mkcid 1 85 18 exd_digest).
 Definition exd_k2 : bytes := cid_enc (mkcid 1 112 18 exd_digest).     (* same multihash: skipped *)
 Definition exd_k3 : bytes := cid_enc (mkcid 1 113 18 (rev exd_digest)).
 Definition exd_o : wopts := mkwopts 0 0 1025 false 2048 false false false false 33554432 8388608.
-Definition exd_cfg : dcfg := mkdcfg TStream exd_o false false [exd_k1] None.
+Definition exd_cfg : dcfg := mkdcfg TStream exd_o false false [exd_k1] None [].
 (* a path target on which a 500-byte file already sits *)
-Definition exd_pcfg : dcfg := mkdcfg TPath exd_o false false [exd_k1] (Some (zeros 500)).
+Definition exd_pcfg : dcfg := mkdcfg TPath exd_o false false [exd_k1] (Some (zeros 500)) [].
 Definition exd_ops : list dop :=
   [DOnPut 1 false; DHas exd_k1; DOnPut 2 true; DPut exd_k1 [x01; x02]; DOnPut 3 true; DPut exd_k2 [x01; x02];
    DPut exd_k3 [x03]; DHas exd_k3; DClose; DPut exd_k1 [x01]; DHas exd_k1; DClose].
@@ -288,5 +288,60 @@ Example C20_example_overwrites_longer_file :
   map (fun so => blen (d_bytes exd_pcfg (fst so))) (d_trace exd_pcfg d_init exd_ops)
   = [500; 500; 500; 149; 149; 149; 187; 187; 297; 297; 297; 297] /\
   d_bytes exd_pcfg (d_run exd_pcfg d_init exd_ops)
-  = d_bytes (mkdcfg TPath exd_o false false [exd_k1] None) (d_run (mkdcfg TPath exd_o false false [exd_k1] None) d_init exd_ops).
+  = d_bytes (mkdcfg TPath exd_o false false [exd_k1] None []) (d_run (mkdcfg TPath exd_o false false [exd_k1] None []) d_init exd_ops).
 Proof. vm_compute. split; reflexivity. Qed.
+
+(* ---- write faults: after ANY Close -- successful or not -- the writer is closed ------------------------- *)
+Definition closed_answer (op : dop) (o : dout) : Prop :=
+  (match op with DOnPut _ _ => do_res o = ONil | _ => do_res o = OErr EClosed end) /\ do_log o = [].
+
+Lemma closed_trace c ops : forall st, d_closed st = true ->
+  Forall (fun x => closed_answer (fst x) (snd (snd x)) /\ d_closed (fst (snd x)) = true /\
+                   d_inner (fst (snd x)) = d_inner st /\ d_created (fst (snd x)) = d_created st)
+         (combine ops (d_trace c st ops)).
+Proof.
+  induction ops as [|op t IH]; intros st Hc; [constructor|]. cbn [d_trace].
+  destruct (closed_step c st op Hc) as (H0 & H1 & H2 & H3 & H4).
+  destruct (d_step c st op) as [st' o] eqn:E. cbn [fst snd] in *. cbn [combine]. constructor.
+  - cbn [fst snd]. split; [|auto]. split; [|exact H4]. destruct op; try exact H0; inversion H0; reflexivity.
+  - specialize (IH st' H1). eapply Forall_impl; [|exact IH]. intros x (A & B & C & D). rewrite C, D. auto.
+Qed.
+
+Lemma d_run_app c a b st : d_run c st (a ++ b) = d_run c (d_run c st a) b.
+Proof. unfold d_run. apply fold_left_app. Qed.
+
+(* for every configuration -- any target, options, pre-existing file and ANY fault script, so also when
+   a Put failed half-way or Close's Finalize fails -- and every history: once a Close has been issued,
+   every later Has / Put / Close answers "closed", no callback fires, the inner writer is not touched *)
+Theorem closed_after_any_close c pre post :
+  let st := d_run c d_init (pre ++ [DClose]) in
+  d_closed st = true /\
+  Forall (fun x => closed_answer (fst x) (snd (snd x)) /\ d_closed (fst (snd x)) = true /\
+                   d_inner (fst (snd x)) = d_inner st /\ d_created (fst (snd x)) = d_created st)
+         (combine post (d_trace c st post)).
+Proof.
+  cbn zeta. assert (H : d_closed (d_run c d_init (pre ++ [DClose])) = true).
+  { rewrite d_run_app. apply close_closes. }
+  split; [exact H|]. apply closed_trace. exact H.
+Qed.
+
+(* non-vacuity with a Close whose Finalize FAILS: a stream that breaks 5 bytes into the CID of the first
+   block (4th write call).  The Put fails, the StorageCar keeps the write error (it cannot take the
+   partial section back), Close reports it -- and the writer is closed all the same *)
+Definition exd_fcfg : dcfg := mkdcfg TStream exd_o false false [exd_k1] None [None; None; None; Some 5].
+Definition exd_fops : list dop :=
+  [DOnPut 1 false; DPut exd_k1 [x01; x02]; DPut exd_k3 [x03]; DClose; DClose; DPut exd_k1 [x01]; DHas exd_k1].
+
+Example C20_example_failed_finalize :
+  map (fun so => (do_res (snd so), do_log (snd so), blen (d_bytes exd_fcfg (fst so)))) (d_trace exd_fcfg d_init exd_fops)
+  = [(ONil, [], 0); (OErr EOther, [(1, 2)], 65); (OErr EOther, [(1, 1)], 65); (OErr EOther, [], 65);
+     (OErr EClosed, [], 65); (OErr EClosed, [], 65); (OErr EClosed, [], 65)].
+Proof. vm_compute. reflexivity. Qed.
+
+Example C20_example_closed_after_failed_close :
+  Forall (fun x => closed_answer (fst x) (snd (snd x)))
+         (combine (skipn 4 exd_fops) (d_trace exd_fcfg (d_run exd_fcfg d_init (firstn 3 exd_fops ++ [DClose])) (skipn 4 exd_fops))).
+Proof.
+  destruct (closed_after_any_close exd_fcfg (firstn 3 exd_fops) (skipn 4 exd_fops)) as (_ & H).
+  eapply Forall_impl; [|exact H]. intros x (A & _). exact A.
+Qed.
